@@ -6,6 +6,29 @@ package client
 
 //@ type Aggregate invariant [made] self.query != nil && self.group != nil && self.globalGroup != nil
 
+// The key=value pieces of an aggregate message as a map (C05): every piece with
+// the key-value delimiter is a field named by the text before the first
+// delimiter; nothing else is in the map.
+//@ define kvKey(part) == substr(part, 0, indexOf(part, "\u2254"))
+//@ define kvVal(part) == substr(part, indexOf(part, "\u2254") + len("\u2254"), len(part) - indexOf(part, "\u2254") - len("\u2254"))
 //@ func (*Aggregate).makeFields
 //@   assigns nothing
 //@   ensures [map-made] result != nil
+//@   loop 1 invariant [pairs-so-far] -1 <= rangeindex && rangeindex < len(parts) && forall(i, 0, rangeindex + 1, implies(contains(parts[i], "\u2254"), has(fields, kvKey(parts[i]))))
+//@   loop 1 invariant [nothing-invented] forallStr(k, implies(has(fields, k), exists(i, 0, rangeindex + 1, contains(parts[i], "\u2254") && kvKey(parts[i]) == k && fields[k] == kvVal(parts[i]))))
+//@   ensures [pairs-become-fields] forall(i, 0, len(parts), implies(contains(parts[i], "\u2254"), has(result, kvKey(parts[i]))))
+//@   ensures [nothing-invented] forallStr(k, implies(has(result, k), exists(i, 0, len(parts), contains(parts[i], "\u2254") && kvKey(parts[i]) == k && result[k] == kvVal(parts[i]))))
+
+// One aggregate message "groupKey ∥ samples ∥ k≔v ∥ …" of this server: its
+// values are aggregated client side (a count adds the partial count) into this
+// server's set for the group key; then the server's group is offered to the
+// global group and emptied exactly when the merge took place, so nothing is
+// merged twice and nothing unmerged is dropped.
+//@ func (*Aggregate).Aggregate
+//@   bind set == GetSet
+//@   bind merged == MergeNoblock
+//@   at-call GetSet [own-group-by-the-message-key] arg0 == a.group && arg1 == parts[0]
+//@   at-call ).Aggregate [client-side-into-that-set] arg0 == set && arg1 == a.query.Select[rangeindex + 1].FieldStorage && arg2 == a.query.Select[rangeindex + 1].Operation && has(fields, arg1) && arg3 == fields[arg1] && arg4
+//@   at-call MergeNoblock [offers-own-group] arg1 == a.query && arg2 == a.group
+//@   at-call InitSet [emptied-only-after-a-merge] merged0 && arg0 == a.group
+//@   ensures [merged-means-emptied] implies(isnil(result) && merged0, forallStr(k, !has(a.group.sets, k)))
